@@ -45,7 +45,7 @@ def cases(tier, seed):
     out += [('ch', first, maxlen) for first in range(n)]
     if tier == 'thorough':
         # all chains of length 4 over the 13-code alphabet (plain symbolic chains, no structure imposed)
-        out += [('ch-small4', first, 4) for first in _alpha8(M)]
+        out += [('ch-small4', first, 4, second) for first in _alpha8(M) for second in _alpha8(M)]
     # one step deeper over the small alphabet of kinds that take part in annihilating / regenerating patterns
     small = _small_alphabet(M)
     out += [('ch-small', first, maxlen + 1) for first in small]
@@ -67,16 +67,19 @@ def twins():
     return [('twin-ch',)]
 
 
-def _crosshair(first, maxlen, timeout, mutant=False, allowed=None, minlen=2, nested=False):
-    env = dict(os.environ, C07_FIRST=str(first), C07_MAXLEN=str(maxlen), C07_MINLEN=str(minlen), PYTHONPATH=VERIF + os.pathsep + os.environ.get('PYTHONPATH', ''))
+def _crosshair(first, maxlen, timeout, mutant=False, allowed=None, minlen=2, nested=False, second=-1):
+    env = dict(os.environ, C07_SECOND=str(second), C07_FIRST=str(first), C07_MAXLEN=str(maxlen), C07_MINLEN=str(minlen), PYTHONPATH=VERIF + os.pathsep + os.environ.get('PYTHONPATH', ''))
     env['C07_ALLOWED'] = ','.join(map(str, allowed)) if allowed else ''
     env['C07_NESTED'] = '1' if nested else ''
     if mutant:
         env['C07_MUTANT'] = '1'
     target = os.path.join(VERIF, 'fxv', 'ch', 'c07_driver_mut.py' if mutant else 'c07_driver.py')
     t0 = time.time()
-    p = subprocess.run([sys.executable, '-m', 'crosshair', 'check', '--report_all', '--per_condition_timeout', str(timeout), target],
-                       capture_output=True, text=True, env=env, timeout=timeout + 120)
+    try:
+        p = subprocess.run([sys.executable, '-m', 'crosshair', 'check', '--report_all', '--per_condition_timeout', str(timeout), target],
+                           capture_output=True, text=True, env=env, timeout=timeout + 120)
+    except subprocess.TimeoutExpired:
+        return 'crosshair did not return within its budget', time.time() - t0
     return p.stdout + p.stderr, time.time() - t0
 
 
@@ -114,11 +117,11 @@ def run_case(key, twin=False):
         if st.startswith('counterexample'):
             return violation(f'(expected) mutated driver without step-back fails on {info}', signature='twin', kind='twin', solver_s=dt)
         return ok(sample=dict(note='mutant not found', out=out[-300:]))
-    _, first, maxlen = key
+    first, maxlen = key[1], key[2]
     per = 240 if maxlen <= 3 else 1500
     if key[0] == 'ch-small4':
-        per = 1500
-        out, dt = _crosshair(first, 4, per, allowed=_alpha8(M), minlen=4)
+        per = 900
+        out, dt = _crosshair(first, 4, per, allowed=_alpha8(M), minlen=4, second=key[3])
     elif key[0] == 'ch-small':
         per = 500
         out, dt = _crosshair(first, maxlen + 1, per, allowed=_small_alphabet(M), minlen=maxlen, nested=True)
